@@ -38,7 +38,7 @@ inductive FwLine
   | routes | route | nslist | ns | ports | go | host
 deriving DecidableEq, Repr
 
-/-- Boundary events.  `run`, `routes`, `started`, `rc0`, `hsOk` are markers (they are not calls
+/-- Boundary events.  `run`, `routes`, `started`, `rc0`, `hsOk`, `sshDead` are markers (they are not calls
 and cannot raise); all others are calls. -/
 inductive Ev
   | connect              -- `ssh.connect(...)`
@@ -66,7 +66,8 @@ inductive Ev
   | wait                 -- `fw.p.wait()`
   | stop                 -- `sdnotify.send(STOPPING=1)`
   | cleanup              -- `daemon_cleanup()`
-  | hsOk                 -- marker (model only): both start-up checks passed
+  | hsOk (init : Bytes)  -- marker (model only): both start-up checks passed; `init` is `initstring`
+  | sshDead              -- marker (model only): the liveness probe of the loop saw ssh gone
 deriving DecidableEq, Repr
 
 inductive Arrive
@@ -122,6 +123,7 @@ structure World where
   tooFull : Bool := false
   autoNets : Nat := 0               -- `len(fw.auto_nets)`
   unmodelled : Bool := false        -- a frame the flow layer (outside this model) would have to interpret
+  hsBytes : Bytes := []             -- ghost: every byte handed out by the start-up reads, in order
 
 /-- The exception monad: the world survives an exception. -/
 abbrev M (α : Type) := World → Except Exc α × World
@@ -195,7 +197,7 @@ def hsRead (sc : Script) (n : Nat) : M Bytes := do
   act sc .hsRead
   let w ← getW
   let r := Handshake.read w.reader n
-  modifyW fun w => { w with reader := r.2 }
+  modifyW fun w => { w with reader := r.2, hsBytes := w.hsBytes ++ r.1 }
   pure r.1
 
 /-- `v = 'x'; while v and v != b'\0': v = rfile.read(1)` -/
@@ -514,8 +516,7 @@ def onacceptTcp (sc : Script) : M Unit := do
 
 
 /-- `ssnet.runonce(handlers, mux)`; `handlers = [mux, tcp listener, …]`. -/
-def runonce (sc : Script) (i : Nat) : M Unit := do
-  mark (.run i)
+def runonceBody (sc : Script) : M Unit := do
   modifyW fun w => if w.muxOk then w else { w with muxInHandlers := false }
   act sc .sel
   let w ← getW
@@ -525,6 +526,11 @@ def runonce (sc : Script) (i : Nat) : M Unit := do
   (if rReady then muxCallback sc else pure ())
   (if wReady then muxCallback sc else pure ())
   if w.acceptable then onacceptTcp sc
+
+/-- The i-th pass: the marker, then `runonce`. -/
+def runonce (sc : Script) (i : Nat) : M Unit := do
+  mark (.run i)
+  runonceBody sc
 
 /-! ### `_main` -/
 
@@ -547,7 +553,9 @@ def checkAlive (sc : Script) (st : Option Step) : M Unit :=
     | some s =>
       modifyW (deliver s)
       match s.alive with
-      | some _ => raise (if sc.cfg.daemon then .oserr Gen.C12.ESRCH else .fatal)
+      | some _ => do
+        mark .sshDead
+        raise (if sc.cfg.daemon then .oserr Gen.C12.ESRCH else .fatal)
       | none => pure ()
   if sc.cfg.daemon then mapExc fillExc body else body
 
@@ -574,7 +582,7 @@ def startup (sc : Script) : M Unit := do
   act sc .poll
   (if sc.cfg.poll0.isSome then raise .fatal else pure ())
   (if init ≠ Handshake.expected then raise .fatal else pure ())
-  mark .hsOk
+  mark (.hsOk init)
 
 /-- From "Connected to server." to the registration of the callbacks. -/
 def register (sc : Script) : M Unit := do
